@@ -21,7 +21,7 @@ from .. import algs, fpx
 from ..runner import Infra
 from ..translate import ir
 
-THEOREMS = ["generated_wf", "generated_shape"]
+THEOREMS = ["generated_wf", "generated_shape", "square_evalQ", "square_accuracy"]
 SEARCHED = ["16-ULP bound for all non-NaN inputs", "no spurious NaN / infinity / wrong sign", "99.9 % within 3 ULP (4 for sqrt, log1p) on both log-uniform streams"]
 TRUSTED = [
     "Lean 4 kernel; axioms propext, Classical.choice, Quot.sound only",
@@ -31,10 +31,13 @@ TRUSTED = [
     "platform libm accuracy is NOT assumed: its values are recorded per input (oracle table) for the Lean evaluation",
 ]
 LEVEL_TEXT = ("Partial proof. Theorems: every regenerated program (14 algorithms x complex64/128, fully expanded) is well formed and has the expected interface "
-              "(two real inputs, two real outputs; one for absolute), re-checked by the kernel against the current source each run. The accuracy clauses (16 ULP, "
+              "(two real inputs, two real outputs; one for absolute), re-checked by the kernel against the current source each run. One accuracy theorem: the regenerated complex "
+              "`square` (square_evalQ: its Q-run is RN(RN(x-y)RN(y+x)) — or exactly 0 when |x| = |y| — and RN(2 RN(xy))) errs, for every precision and any round-to-nearest, by at most "
+              "((1+u)^3 - 1)|x^2-y^2| in the real part and u|2xy| in the imaginary part whenever the intermediate results are in the normal range (square_accuracy; u = 2^-p: within "
+              "4 resp. 1 ULP), from the relative-error lemma rn_rel_err. The accuracy clauses of the other 13 algorithms (16 ULP, "
               "no spurious NaN/inf/sign, 99.9 % design-target rates) are decided by search only: boundary-targeted, log-uniform and special-lattice inputs "
               "against an independent Ziv-style mpmath reference, on the repo's own generated NumPy implementation of the expanded graph.")
-LEVEL_NOTE = "ULP bounds and rates: search only (no theorem). Model tie: 3-way bit-level correspondence incl. Lean softfloat evaluation with recorded libm values."
+LEVEL_NOTE = "ULP bounds and rates: search only, except complex square (theorem, normal range). Model tie: 3-way bit-level correspondence incl. Lean softfloat evaluation with recorded libm values."
 TECHNIQUE = "translator-regenerated Lean programs (kernel-checked well-formedness) + 3-way correspondence + mpmath Ziv reference search"
 
 TARGET_ULP = {"sqrt": 4, "log1p": 4}
